@@ -15,8 +15,8 @@ from pvmon.common import DAY_US, MAX_US, MIN_US, ORD0, US, fields, inst, off_us,
 from pvmon.oracle import judge, tzdb
 
 PLAN = {
-    "quick": {"configs": ["ext1", "ext0"], "nshards": 12, "nshards_ext0": 4, "timeout": 900},
-    "thorough": {"configs": ["ext1", "ext0"], "nshards": 16, "timeout": 3400, "suite": ["ext1"]},
+    "quick": {"configs": ["ext1", "ext0"], "nshards": 12, "nshards_ext0": 4, "timeout": 900, "calendar_first": [0, 6, 0, 5]},
+    "thorough": {"configs": ["ext1", "ext0"], "nshards": 16, "timeout": 3400, "suite": ["ext1"], "calendar_first": [0, 6, 0, 5]},
 }
 DECIDING = ["next", "previous", "first_of", "last_of", "nth_of"]
 FLOORS = {"quick": {"next": 20000, "previous": 20000, "first_of": 20000, "last_of": 20000, "nth_of": 50000},
@@ -306,8 +306,12 @@ def run(M, c):
         M.sample(c)
         dim = calendar.monthrange(y, mo)[1]
         fw = dt.date(y, mo, 1).weekday()
+        import calendar as _calmod
+
         for wd in range(7):
-            w = WD(wd)
+            # the weekday is given as pendulum.WeekDay, as a plain int (what the docstrings advertise) or as the
+            # standard library's calendar.MONDAY ... (an IntEnum of its own on 3.12): equal, not identical
+            w = (WD(wd), wd, getattr(_calmod, "Day", int)(wd))[(wd + d + mo) % 3]
             _quiet(x.next, w)
             _quiet(x.previous, w)
             if kind not in ("date",):
